@@ -27,13 +27,13 @@ EPS = {
     "e3": ("v6", "2001:db8::7", 4002),
 }
 ADDR = {"e1": ("192.0.2.7", 4000), "e2": ("192.0.2.8", 4001), "e3": ("2001:db8::7", 4002, 0, 0)}
-SUBSETS = [[1], [2], [1, 2]]
+SUBSETS = [[1], [2, 3], [1, 2, 3]]
 
 
 def bounds(tier):
     k = 4 if tier == "thorough" else 3
     return {
-        "H17": "non-cyclic eventgroup with 2 events: K<=%d calls from {subscribe(endpoint in 3), unsubscribe(endpoint), unsubscribe of an endpoint that is not subscribed, value update, notify_once(subset in 3), subscription with 0 / 2 endpoints, subscription for an unknown eventgroup}; gaps symbolic 0..50 ms; counters symbolic" % k,
+        "H17": "non-cyclic eventgroup with 3 events: K<=%d calls from {subscribe(endpoint in 3), unsubscribe(endpoint), unsubscribe of an endpoint that is not subscribed, value update, notify_once(subset in 3), subscription with 0 / 2 endpoints, subscription for an unknown eventgroup}; gaps symbolic 0..50 ms; counters symbolic" % k,
         "H17c": "cyclic eventgroup (1 s): subscribe at a symbolic instant followed by none / unsubscribe / second subscriber / value update / unsubscribe+resubscribe at symbolic instants (0..2500 ms apart), observed 2500 ms beyond",
         "H17r": "races inside one tick: 2..3 settled subscribers, notify_once and - in the same loop iteration or 1..3 iterations later while the round's address look-ups are pending - a subscribe / unsubscribe / bogus unsubscribe / value update / second notify_once",
         "H17s": "through service discovery: Subscribe datagram (1 endpoint / 2 endpoints / undeclared eventgroup, TTL symbolic) to an announced SimpleService, then StopSubscribe",
@@ -84,7 +84,7 @@ def cases(tier, seed):
     return out
 
 
-def _mkservice(E, M, loop, interval=None):
+def _mkservice(E, M, loop, interval=None, three=False):
     class Svc(M.service.SimpleService):
         service_id = SVC
         version_major = MAJOR
@@ -97,6 +97,8 @@ def _mkservice(E, M, loop, interval=None):
     svc.register_eventgroup(evg)
     evg.values[1] = b"\x01"
     evg.values[2] = b"\x02\x02"
+    if three:
+        evg.values[3] = b"\x03\x03\x03"
     return svc, evg, tr
 
 
@@ -142,12 +144,12 @@ def _check_stream(E, tr, counters, expected, values_at):
 
 def h17(E, M, case):
     loop = new_loop(E)
-    svc, evg, tr = _mkservice(E, M, loop)
+    svc, evg, tr = _mkservice(E, M, loop, three=True)
     counters = {}
     for j, (name, a) in enumerate(sorted(ADDR.items())):
         counters[a] = E.int("cnt_%s" % name, 1, 0xFFFF)
         svc.session_storage.outgoing[a] = (True, counters[a])
-    values = {1: b"\x01", 2: b"\x02\x02"}
+    values = {1: b"\x01", 2: b"\x02\x02", 3: b"\x03\x03\x03"}
     subs = []
     expected = []
     refused = []
@@ -169,7 +171,7 @@ def h17(E, M, case):
             ep = _ep(M, op[1])
             sc.at(t, lambda ep=ep: svc.client_subscribed(_subscription(M, [ep]), P), "op%d" % i, joinable=False)
             subs.append(op[1])
-            expected.append({"t": t, "addr": ADDR[op[1]], "ids": [1, 2], "vals": [dict(values)]})
+            expected.append({"t": t, "addr": ADDR[op[1]], "ids": [1, 2, 3], "vals": [dict(values)]})
         elif kind == "unsub":
             ep = _ep(M, op[1])
             sc.at(t, lambda ep=ep: svc.client_unsubscribed(_subscription(M, [ep]), P), "op%d" % i, joinable=False)
